@@ -11,7 +11,8 @@ from harness.lib import common
 
 PROP = 'C19'
 PROP_FILE = 'Props/C19.v'
-THEOREMS = ['C19_split_invariant', 'C19_matches_reference', 'C19_truncated_or_corrupt_is_error']
+THEOREMS = ['C19_split_invariant', 'C19_matches_reference', 'C19_truncated_or_corrupt_is_error',
+            'C19_stream_glue', 'C19_stream_glue_wire', 'C19_stream_glue_short_is_error', 'C19_content_encoding_selection']
 TRUSTED = [
     'zlib is modelled as an arbitrary byte-at-a-time machine (Section variables of Model/Decomp.v): '
     'its output/error/eof after a prefix is a function of that prefix - sampled against the real zlib on every case',
@@ -157,6 +158,351 @@ def generate_large(r, n):
     return cases
 
 
+# ---------------------------------------------------------------------------
+# the glue of http/stream.py: real Stream.read_response + read_body over the scripted
+# connection vs Model/DecompGlue.tab_read_body
+# ---------------------------------------------------------------------------
+def _is_zlib_header(c, f):
+    return c & 15 == 8 and c >> 4 <= 7 and (c * 256 + f) % 31 == 0 and not f & 32
+
+
+def _py_whole(w, body):
+    d = zlib.decompressobj(w)
+    try:
+        out = d.decompress(body) + d.flush()
+    except zlib.error:
+        return None
+    return out if d.eof else None
+
+
+def py_reference(kind, body):
+    """Model/Decomp.reference with the real zlib, written against the property text only
+    (no wpull code): what one-shot decoding of the whole entity body means."""
+    if kind == 'KIdentity':
+        return body
+    if not body:
+        return b''
+    if kind == 'KGzip':
+        return _py_whole(31, body) if body[0] == 0x1f else body
+    if len(body) == 1:
+        return None
+    return _py_whole(15 if _is_zlib_header(body[0], body[1]) else -15, body)
+
+
+def _kind_of_value(v):
+    """what _setup_decompressor is specified to select for the str it sees"""
+    lo = v.lower()
+    return 'KGzip' if lo == 'gzip' else 'KDeflate' if lo == 'deflate' else 'KIdentity'
+
+
+CE_CLEAN = [('gzip', 'KGzip'), ('GZIP', 'KGzip'), ('GZip', 'KGzip'), ('gZiP', 'KGzip'),
+            ('deflate', 'KDeflate'), ('Deflate', 'KDeflate'), ('DEFLATE', 'KDeflate'), ('dEfLaTe', 'KDeflate'),
+            (None, 'KIdentity'), ('', 'KIdentity'), ('identity', 'KIdentity'), ('x-gzip', 'KIdentity'),
+            ('gzip, deflate', 'KIdentity'), ('gzip,', 'KIdentity'), ('br', 'KIdentity'), ('gzip;q=1', 'KIdentity'),
+            ('g zip', 'KIdentity'), ('gzipp', 'KIdentity'), ('gzi', 'KIdentity'), ('deflate, gzip', 'KIdentity'),
+            ('compress', 'KIdentity'), ('gz\xcdp', 'KIdentity'), ('deflat\xc9', 'KIdentity'), ('zlib', 'KIdentity'),
+            ('"gzip"', 'KIdentity'), ('gzip deflate', 'KIdentity')]
+DECODER_CLASS = {'KGzip': 'GzipDecompressor', 'KDeflate': 'DeflateDecompressor', 'KIdentity': 'NoneType'}
+
+
+def _ce_lines(r, body_kind):
+    """Content-Encoding header lines + the decoder kind they are meant to select"""
+    if r.random() < 0.6:
+        cands = [x for x in CE_CLEAN if x[1] == body_kind]
+    else:
+        cands = CE_CLEAN
+    v, kind = r.choice(cands)
+    if v is None:
+        return [], kind
+    name = r.choice(['Content-Encoding', 'Content-Encoding', 'content-encoding', 'CONTENT-ENCODING', 'Content-encoding', 'cOnTeNt-EnCoDiNg'])
+    pre = r.choice([' ', ' ', '', '  ', '\t', ' \t '])
+    post = r.choice(['', '', '', ' ', '\t', '  '])
+    lines = [name.encode() + b':' + pre.encode() + v.encode('latin-1') + post.encode()]
+    if r.random() < 0.12:        # a second field: fields.get() returns the first value
+        lines.append(b'Content-Encoding: ' + r.choice([b'gzip', b'deflate', b'identity']))
+    return lines, kind
+
+
+def _chunk_wire(r, entity):
+    """well-framed chunked coding of entity: (wire, sizes, per-chunk (content offset in wire))"""
+    n = len(entity)
+    cuts = sorted(set(r.randrange(1, n) for _ in range(r.randrange(0, 5)))) if n > 1 else []
+    parts = [entity[a:b] for a, b in zip([0] + cuts, cuts + [n])] if n else []
+    wire = b''
+    spans = []
+    for p in parts:
+        fmt = r.choice(['%x', '%X', '%04x', '%x;ext=1', '%x ;a', '%x'])
+        wire += (fmt % len(p)).encode() + r.choice([b'\r\n', b'\r\n', b'\n'])
+        spans.append((len(wire), len(p)))
+        wire += p + r.choice([b'\r\n', b'\r\n', b'\n'])
+    end_at = len(wire)
+    wire += r.choice([b'0\r\n', b'0\r\n', b'00\r\n', b'0;last\r\n'])
+    body_done = len(wire)
+    wire += r.choice([b'\r\n', b'\r\n', b'X-Trailer: 1\r\n\r\n'])
+    return wire, [len(p) for p in parts], spans, body_done
+
+
+def _segment(r, head, wire, style):
+    stream = head + wire
+    h, n = len(head), len(head) + len(wire)
+    if style == 'whole':
+        cuts = []
+    elif style == 'head|body':
+        cuts = [h]
+    elif style == 'bytes':
+        cuts = [h] + list(range(h + 1, n))
+    elif style == 'first1':
+        cuts = [h, h + 1]
+    elif style == 'first2':
+        cuts = [h, h + 1, h + 2] if r.random() < 0.5 else [h, h + 2]
+    elif style == 'head+k':
+        cuts = [h + r.randrange(1, max(2, len(wire)))] if wire else []
+    elif style == 'blocks':
+        b = r.choice([4096, 5000, 4095, 4097, 1000, 8192])
+        cuts = [h] + list(range(h + b, n, b))
+    else:
+        cuts = [h] + [r.randrange(h, n + 1) for _ in range(r.randrange(1, 6))]
+    cuts = sorted(set(c for c in cuts if 0 < c < n))
+    return [stream[a:b].hex() for a, b in zip([0] + cuts, cuts + [n])]
+
+
+def _big_payload(r):
+    return bytes(r.randrange(256) for _ in range(r.randrange(4500, 9500)))
+
+
+def generate_glue(r, n_msgs, big=0):
+    """(message, segmentation) cases: every message under several segmentations"""
+    cases = []
+    for mi in range(n_msgs + big):
+        is_big = mi >= n_msgs
+        payload = _big_payload(r) if is_big else _payload(r)
+        for _ in range(20):
+            body_kind, entity, tag, complete = _encode(r, payload)
+            if is_big or len(entity) <= 150:
+                break
+        if is_big and body_kind == 'KIdentity' and r.random() < 0.5:
+            body_kind, entity, tag = 'KGzip', gzip.compress(payload, 1, mtime=0), 'gzip'
+        if complete and tag in ('gzip', 'zlib', 'raw') and len(entity) > 1 and r.random() < 0.25:
+            entity = entity[:r.choice([len(entity) - 1, r.randrange(1, len(entity))])]
+            tag += '-truncated'
+        ce_lines, kind = _ce_lines(r, body_kind)
+        raw = r.random() < 0.06
+        strat = r.choice(['close', 'length', 'length', 'chunked', 'chunked', 'ignore_length', 'length-surplus',
+                          'length-short', 'length-cut', 'chunked-eof', 'length-zero'])
+        if raw and strat.startswith('chunked'):
+            strat = 'length'
+        hdrs = list(ce_lines)
+        ignore_length = False
+        short = False
+        if strat == 'close':
+            wire, delivered, st = entity, entity, ['close']
+        elif strat == 'length':
+            wire, delivered, st = entity, entity, ['length', len(entity)]
+        elif strat == 'length-surplus':
+            wire = entity + (b'HTTP/1.1 200 OK\r\n' if r.random() < 0.5 else bytes(r.randrange(256) for _ in range(r.randrange(1, 30))))
+            delivered, st = entity, ['length', len(entity)]
+        elif strat == 'length-short':
+            wire, delivered, st, short = entity, entity, ['length', len(entity) + r.randrange(1, 9)], True
+        elif strat == 'length-cut':
+            n = r.randrange(0, len(entity) + 1)
+            wire, delivered, st = entity, entity[:n], ['length', n]
+        elif strat == 'length-zero':
+            wire, delivered, st = (entity if r.random() < 0.5 else b''), b'', ['length', 0]
+        elif strat == 'ignore_length':
+            ignore_length = True
+            wire = entity + (b'' if r.random() < 0.6 else b'\x00tail')
+            delivered, st = wire, ['close']
+            hdrs.append(b'Content-Length: %d' % r.choice([len(entity), 0, 3, len(entity) + 5]))
+        else:
+            wire, sizes, spans, body_done = _chunk_wire(r, entity)
+            delivered, st = entity, ['chunked', sizes]
+            if strat == 'chunked-eof' and len(wire) > 1:
+                cut = r.randrange(1, body_done + 1)     # not inside the trailer (a cut-off trailer line is C08/C09 matter)
+                wire = wire[:cut]
+                delivered = b''.join(wire[o:o + n] for o, n in spans)
+                short = cut < body_done
+            hdrs.append(r.choice([b'Transfer-Encoding: chunked', b'transfer-encoding: chunked', b'Transfer-Encoding: chunked;x']))
+            if r.random() < 0.2:
+                hdrs.append(b'Content-Length: 3')
+        if st[0] == 'length':
+            hdrs.append(b'Content-Length: %d' % st[1])
+        others = hdrs[len(ce_lines):]
+        hdrs = list(ce_lines)                       # the Content-Encoding lines keep their relative order
+        for h in others:
+            hdrs.insert(r.randrange(len(hdrs) + 1), h)
+        head = b'HTTP/1.1 200 OK\r\n' + b''.join(h + b'\r\n' for h in hdrs) + b'\r\n'
+        styles = ['whole', 'head|body', 'blocks', 'head+k'] if is_big else \
+                 ['whole', 'head|body', 'bytes', 'first1', 'first2', 'head+k', 'random', 'random']
+        if not is_big:
+            styles = ['whole'] + r.sample(styles[1:], 4)
+        for style in styles:
+            cases.append({'mode': 'glue', 'msg': mi, 'segs': _segment(r, head, wire, style), 'head_len': len(head),
+                          'wire': wire.hex(), 'delivered': delivered.hex(), 'raw': raw, 'ignore_length': ignore_length,
+                          'keep_alive': r.random() < 0.8, 'strategy': st, 'kind': 'KIdentity' if raw else kind,
+                          'short': short, 'tag': 'glue-%s-%s%s' % (strat, tag, '-big' if is_big else ''), 'style': style,
+                          'tables': True})
+    return cases
+
+
+def _glue_impl(cases, shard=60, lower_fact=True):
+    chunks = [cases[i:i + shard] for i in range(0, len(cases), shard)]
+    payloads = [{'glue': c, 'lower_fact': lower_fact and i == 0} for i, c in enumerate(chunks)]
+    outs = common.run_impl_sharded('c19_impl.py', payloads, par=6)
+    res = []
+    for o in outs:
+        res += o['results']
+    lf = outs[0].get('lower_fact') if outs else None
+    return res, lf
+
+
+def _hex6_to_str(h):
+    return ''.join(chr(int(h[i:i + 6], 16)) for i in range(0, len(h), 6))
+
+
+def _glue_property(case, res):
+    """the property itself (and the hypotheses of the theorems) on the implementation's answers"""
+    err = res['error']
+    if res['stage'] == 'head':
+        return 'harness-head-not-read'
+    if err not in (None, 'ProtocolError', 'NetworkError'):
+        return 'unexpected-exception'
+    if res['decoder'] != DECODER_CLASS[case['kind']]:
+        return 'wrong-decoder-selected'
+    pieces = [bytes.fromhex(p) for p in res['pieces']]
+    if any(not p for p in pieces):
+        return 'empty-piece-delivered'
+    delivered = bytes.fromhex(case['delivered'])
+    got = b''.join(pieces)
+    if (got != delivered) if err != 'ProtocolError' else (not delivered.startswith(got)):
+        return 'reader-delivered-wrong-bytes'
+    expected = py_reference(case['kind'], delivered)
+    if case['short']:
+        return None if err else 'short-body-accepted'
+    if expected is None:
+        if err is None:
+            return 'corrupt-or-truncated-accepted'
+        return None if err == 'ProtocolError' else 'wrong-error-class'
+    if err is not None:
+        return 'spurious-error'
+    if bytes.fromhex(res['file']) != expected:
+        return 'wrong-content'
+    return None
+
+
+def _glue_violations(cases, results):
+    out = []
+    groups = {}
+    for c, r in zip(cases, results):
+        why = _glue_property(c, r)
+        cc = {k: c[k] for k in ('mode', 'segs', 'head_len', 'wire', 'delivered', 'raw', 'ignore_length', 'keep_alive',
+                                'strategy', 'kind', 'short', 'tag', 'style')}
+        if why:
+            out.append({'why': why, 'case': cc, 'impl': {k: r.get(k) for k in ('error', 'file', 'decoder', 'strategy')}})
+        key = (c['msg'], c['wire'], c['head_len'])
+        obs = (r['error'], r['file'] if r['error'] is None else None)
+        if key in groups and groups[key][0] != obs:
+            out.append({'why': 'split-dependence', 'case': cc, 'other_segs': groups[key][1],
+                        'impl': {'this': list(obs), 'other': list(groups[key][0])}})
+        groups.setdefault(key, (obs, c['segs']))
+    return out
+
+
+GLUE_HEADER = HEADER.replace('Model.Decomp.', 'Lib.Conn Model.Decomp Model.DecompGlue.') + r"""
+Definition gerr_eqb (a b : gerr) : bool :=
+  match a, b with
+  | GProtocolErr, GProtocolErr | GNetworkErr, GNetworkErr | GValueErr, GValueErr => true
+  | _, _ => false
+  end.
+Definition gres_eqb (a b : gres) : bool :=
+  match a, b with
+  | GOk x, GOk y => list_eqb x y
+  | GErr e x, GErr f y => gerr_eqb e f && list_eqb x y
+  | _, _ => false
+  end.
+(* recorded pieces: equal to the model's (all = true) or a prefix of them (decoder failed, reading stopped) *)
+Fixpoint pieces_ok (all : bool) (model recorded : list (list N)) : bool :=
+  match recorded, model with
+  | [], [] => true
+  | [], _ :: _ => negb all
+  | _ :: _, [] => false
+  | x :: r, y :: m => list_eqb x y && pieces_ok all m r
+  end.
+Definition T0 : ztab := {| zt_rows := []; zt_out := [] |}.
+"""
+
+
+def _coq_strategy(st):
+    if st[0] == 'close':
+        return 'SClose'
+    if st[0] == 'length':
+        return '(SLength %d%%nat)' % st[1]
+    return '(SChunked [%s])' % '; '.join('%d%%nat' % n for n in st[1])
+
+
+def _coq_glue_case(case, res):
+    wire = bytes.fromhex(case['wire'])
+    ce = res.get('ce', '')
+    kind = 'KIdentity' if case['raw'] else _kind_of_value(_hex6_to_str(ce))
+    t = res['tables']
+    t31 = _coq_tab(t['W31']) if kind == 'KGzip' else 'T0'
+    t15 = _coq_tab(t['W15']) if kind == 'KDeflate' else 'T0'
+    traw = _coq_tab(t['WRaw']) if kind == 'KDeflate' else 'T0'
+    oracle = '(list_oracle [%s])' % '; '.join('(%d%%nat, %d%%nat)' % (len(wire) - b, n) for b, n in res['reads'])
+    err = res['error']
+    if err is None:
+        exp = 'GOk (unhex "%s")' % res['file']
+    else:
+        exp = 'GErr %s (unhex "%s")' % ({'ProtocolError': 'GProtocolErr', 'NetworkError': 'GNetworkErr'}.get(err, 'GValueErr'), res['file'])
+    st = _coq_strategy(case['strategy'])
+    raw = 'true' if case['raw'] else 'false'
+    pieces = '[' + '; '.join('unhex "%s"' % p for p in res['pieces']) + ']'
+    return ('gres_eqb (tab_read_body %s %s %s %s %s (unhex6 "%s") %s (unhex "%s")) (%s)\n    && pieces_ok %s (fst (tab_body_pieces %s %s (unhex "%s"))) %s'
+            % (t31, t15, traw, oracle, raw, ce, st, case['wire'], exp,
+               'false' if err == 'ProtocolError' else 'true', oracle, st, case['wire'], pieces))
+
+
+def glue_correspondence(ctx, r):
+    n_msgs = 70 if not ctx.thorough else 1500
+    cases = generate_glue(r, n_msgs, big=3 if not ctx.thorough else 30)
+    results, lower = _glue_impl(cases)
+    disagreements = []
+    if not lower or lower.get('bad'):
+        disagreements.append({'note': 'str.lower() fact used by select_kind failed on this interpreter', 'detail': lower})
+    for c, res in zip(cases, results):
+        if res.get('strategy') != c['strategy'][0] and not (c['ignore_length'] and res.get('strategy') == 'length'):
+            disagreements.append({'case': {k: c[k] for k in ('segs', 'tag')}, 'note': 'read strategy differs from the generator\'s (harness or C08 matter)',
+                                  'impl': res.get('strategy')})
+        if not res['machine_ok']:
+            disagreements.append({'case': {k: c[k] for k in ('segs', 'tag')}, 'note': 'zlib machine abstraction failed (assumption sample)'})
+        if res.get('starved'):
+            disagreements.append({'case': {k: c[k] for k in ('segs', 'tag')}, 'note': 'harness: reader starved'})
+    small = [(c, res) for c, res in zip(cases, results) if len(c['wire']) <= 2 * 400 and res['stage'] != 'head']
+    bigs = [(c, res) for c, res in zip(cases, results) if len(c['wire']) > 2 * 400 and res['stage'] != 'head']
+    groups = [small[i:i + 60] for i in range(0, len(small), 60)] + [bigs[i:i + 4] for i in range(0, len(bigs), 4)]
+    bodies = [GLUE_HEADER + 'Definition checks : list bool := [\n  ' + ';\n  '.join(_coq_glue_case(c, res) for c, res in g) +
+              '].\nEval vm_compute in (failing checks).\n' for g in groups]
+    outs = common.coq_eval_many(bodies, par=6)
+    for g, (rc, out) in zip(groups, outs):
+        fails = common.parse_vm_list(out) if rc == 0 else None
+        if fails is None:
+            disagreements.append({'glue_shard': g[0][0]['tag'], 'coq_error': out[-600:]})
+            continue
+        for f in fails:
+            c, res = g[int(f)]
+            disagreements.append({'case': {k: c[k] for k in ('segs', 'head_len', 'strategy', 'raw', 'tag', 'style')},
+                                  'impl': {k: res.get(k) for k in ('error', 'file', 'ce', 'pieces', 'reads')},
+                                  'note': 'glue model (tab_read_body / pieces) differs from Stream.read_body'})
+    tags = {}
+    nontriv = set()
+    for c, res in zip(cases, results):
+        tags[c['tag']] = tags.get(c['tag'], 0) + 1
+        if c['kind'] != 'KIdentity' and len(res['pieces']) > 1:
+            nontriv.add((c['kind'], tuple(res['pieces']), tuple(c['strategy'][:1])))
+    return {'cases': cases, 'results': results, 'disagreements': disagreements, 'tags': tags, 'nontrivial': nontriv,
+            'violations': _glue_violations(cases, results), 'lower_fact': lower,
+            'errors': sum(1 for x in results if x['error'])}
+
+
 def _property_on_impl(case, res):
     """the property itself, on the implementation's answers"""
     if 'gen' in case and not case.get('truncated') and res['oneshot'] != res.get('expect'):
@@ -173,6 +519,8 @@ def _property_on_impl(case, res):
 def classify(v):
     case = v.get('case', {})
     why = v.get('why', '')
+    if case.get('mode') == 'glue':
+        return '%s/glue/%s/%s' % (why, case.get('kind'), (case.get('strategy') or ['?'])[0])
     return '%s/%s/%s' % (why, case.get('kind'), (case.get('tag') or '').split('-')[0])
 
 
@@ -238,19 +586,29 @@ def correspondence(ctx):
     large_viol = _violations(large, large_res)
     for c in large:
         tags[c['tag']] = tags.get(c['tag'], 0) + 1
+    glue = glue_correspondence(ctx, common.rng('c19-glue'))
+    disagreements += glue['disagreements']
+    tags.update(glue['tags'])
+    nontriv |= {('glue',) + x for x in glue['nontrivial']}
     return {
-        'evaluations': len(cases) + len(large),
+        'evaluations': len(cases) + len(large) + len(glue['cases']),
+        'glue_cases_through_Stream_read_body': len(glue['cases']),
+        'glue_errors_from_impl': glue['errors'],
+        'str_lower_fact': glue['lower_fact'],
         'large_bodies_checked_on_impl_only': len(large),
         'distinct_nontrivial': len(nontriv),
         'rule': 'generated (kind, body, split) triples: gzip/zlib/raw/identity/garbage/trailing/corrupt/header-variant bodies '
                 'and their truncations, each under whole/single-byte/1-first/2-first/random splits, plus every split of 5 short bodies; '
-                'non-trivial = the decoder engaged zlib and the body was fed in more than one piece (distinct (kind, pieces))',
+                'non-trivial = the decoder engaged zlib and the body was fed in more than one piece (distinct (kind, pieces)); '
+                'glue: (message, segmentation) pairs read by the real Stream.read_response + read_body over the scripted connection '
+                '(Content-Encoding spellings x close/length/chunked/ignore_length/surplus/short/cut framings x 5 segmentations each), '
+                'non-trivial = a decoder was selected and the reader handed it more than one piece',
         'samples': [{k: cases[i][k] for k in ('kind', 'pieces', 'tag')} for i in (0, len(cases) // 2, len(cases) - 1)],
         'input_distribution': tags,
         'oracle_samples': {'zlib_machine_abstraction_checked': len(cases), 'failed': len(machine_bad)},
         'errors_from_impl': sum(1 for x in results if x['stream'] is None),
         'disagreements': disagreements,
-        'impl_violations': _violations(cases, results) + large_viol,
+        'impl_violations': _violations(cases, results) + large_viol + glue['violations'],
     }
 
 
@@ -263,12 +621,24 @@ def search(ctx, disagreements):
         c['tables'] = False
     results = _impl(cases)
     large = generate_large(r, 60)
-    return _violations(cases, results) + _violations(large, _impl(large, shard=3))
+    gl = generate_glue(r, 800, big=10)
+    for c in gl:
+        c['tables'] = False
+    gres, _ = _glue_impl(gl, lower_fact=False)
+    return _violations(cases, results) + _violations(large, _impl(large, shard=3)) + _glue_violations(gl, gres)
 
 
 def replay(ctx, data):
     case = dict(data['case'])
     case['tables'] = False
+    if case.get('mode') == 'glue':
+        case.setdefault('msg', 0)
+        res, _ = _glue_impl([case], lower_fact=False)
+        if data.get('why') == 'split-dependence' and data.get('other_segs'):
+            other = dict(case, segs=data['other_segs'])
+            res2, _ = _glue_impl([other], lower_fact=False)
+            return bool(_glue_violations([other, case], [res2[0], res[0]]))
+        return _glue_property(case, res[0]) is not None
     res = _impl([case])[0]
     return _property_on_impl(case, res) is not None
 
